@@ -43,7 +43,15 @@ def run_one(name, tier="quick"):
         saved = open(ev).read() if os.path.exists(ev) else None
         env = dict(os.environ, VERIF_REPO=wt)
         t0 = time.time()
-        r = sh([os.path.join(VERIF, "check"), pid, "--tier", tier], cwd=VERIF, env=env, timeout=3600)
+        try:
+            r = sh([os.path.join(VERIF, "check"), pid, "--tier", tier], cwd=VERIF, env=env, timeout=int(os.environ.get("SEED_TIMEOUT", "3600")))
+        except subprocess.TimeoutExpired:
+            res["error"] = "the check did not finish within the time limit on the patched tree"
+            res["detected"] = False
+            if saved is not None:
+                open(ev, "w").write(saved)
+            json.dump(res, open(os.path.join(d, "result.json"), "w"), indent=1)
+            return res
         res["wall_s"] = round(time.time() - t0, 1)
         res["exit"] = r.returncode
         lines = [l for l in r.stdout.splitlines() if l.startswith("VIOLATION") or l.startswith("KNOWN-FINDING")]
